@@ -178,6 +178,10 @@ def table():
                   T(dd + "#[display(\"e\")] struct {S}<T: 'static> {{ source: &'static T }}", gens=["none"], note="type parameter behind a reference"),
                   T(dd + "#[display(\"e\")] struct {S}<T: Tr> where <T as Tr>::A: ::core::fmt::Debug {{ source: <T as Tr>::A }}", gens=["none"], note="type parameter in a qualified self type"),
                   T(dd + "#[display(\"e\")] struct {S}<T>(Box<T>);", gens=["none"], note="type parameter inside a generic argument"),
+                  T(dd + "#[display(\"e\")] struct {S}<T>(::std::boxed::Box<T>);", gens=["none"], note="type parameter in the last segment of a multi-segment path"),
+                  T(dd + "#[display(\"e\")] struct {S}<T: 'static>(H<T, 1>);", gens=["none"], note="type parameter among several generic arguments"),
+                  T(dd + "#[display(\"e\")] struct {S}<T: 'static>(H<(), 1>, ::core::marker::PhantomData<T>);", gens=["none"], note="parameter only in a non-source field"),
+                  T(dd + "#[display(\"e\")] struct {S}<T: Tr> where T::A: ::core::fmt::Debug {{ source: T::A }}", gens=["none"], note="associated type of a parameter"),
                   T(dd + "#[display(\"e\")] enum {S}<T, U> {{ {V}(T), B {{ source: U }}, Cc }}", gens=["none"]),
                   T(dd + "#[display(\"e\")] struct {S}{G}{W} {{ {F}: {C} }}"),
                   T(dd + "#[display(\"e\")] struct {S};", gens=["none"])]
